@@ -500,7 +500,7 @@ def _short(v):
 
 def run(ctx):
     mf = 8 if ctx.tier == "quick" else 16
-    ctx.run_given(cases(max_files=mf), run_case, ctx.n(quick=120, thorough=1500))
+    ctx.run_given(cases(max_files=mf), run_case, ctx.n(quick=120, thorough=1200))
 
 
 def replay(case, ctx):
